@@ -70,6 +70,7 @@ class Ctx:
         self.model = None        # a model of base ∧ pc (lazy)
         self.fixed = {}          # z3 const id -> python int, learnt from decided equalities
         self.hash_tokens = []
+        del _PICKLE_REG[:]
         self.str_calls = 0
         self.nonlinear = 0
         self.syms = {}           # name -> SymInt
@@ -210,6 +211,20 @@ class Ctx:
         return r, m
 
 
+# M11: pickle carries a symbolic integer as an opaque token (the model assumes pickle transports a Python int unchanged); the rest of
+# pickle/gzip/base64 runs for real on the object graph.  copy.deepcopy of a proxy returns the (immutable) proxy itself.
+_PICKLE_REG = []
+
+
+def _unpickle_proxy(k):
+    return _PICKLE_REG[k]
+
+
+def _reduce_proxy(self):
+    _PICKLE_REG.append(self)
+    return (_unpickle_proxy, (len(_PICKLE_REG) - 1,))
+
+
 def cur():
     c = Ctx.cur
     if c is None:
@@ -264,6 +279,7 @@ def _b(o):
 
 class SymBool:
     __slots__ = ("e",)
+    __reduce__ = _reduce_proxy
 
     def __init__(self, e):
         self.e = e
@@ -333,6 +349,7 @@ class SymBool:
 
 class SymInt:
     __slots__ = ("e",)
+    __reduce__ = _reduce_proxy
 
     def __init__(self, e):
         self.e = e
